@@ -7,6 +7,8 @@ import DendroModel.Theory.C15Ptr
 import DendroModel.Theory.C15Level
 import DendroModel.Theory.C15Apply
 import DendroModel.Theory.C15Heap
+import DendroModel.Theory.C15Nbr
+import DendroModel.Gen.C15Filters
 /-! C15 — property theorems: every traversal machine yields exactly its defining order, for every
 tree, every start node (a start node is the root of the `T` the machine is run on) and every filter.
 Only property theorems live in `namespace DendroModel.C15` of this file; helper lemmas are in
@@ -1303,5 +1305,214 @@ theorem mixed_generators_interleaved (toks : List String) (tree : T) (rest : Lis
 example : gSched pvNext lvNext (heapOf #[-1, 0, 1, 0, 5, 4]) ⟨0, .init 0⟩ ⟨1, .init 0⟩ [true, false, true, false, true, false, true, false, true]
     = [(true, some 0), (false, some 0), (true, some 1), (false, some 1), (true, some 2), (false, some 3), (true, some 3),
        (false, some 2), (true, none)] := by decide
+
+end DendroModel.C15
+
+/-! ## round ext-3: the one-step iterators of `Node` and the first-hit searches of `Tree`
+
+`child_node_iter` / `child_edge_iter` / `child_nodes` / `child_edges` / `incident_edges`, `adjacent_nodes`,
+`sibling_nodes` (tree level AND, where the code reads `_parent_node`, refined from the parent array), and
+`find_node` / `find_nodes` / `find_node_with_label` / `find_node_with_taxon(_label)` / `find_node_for_taxon`
+(a first hit of the pre-order resp. POST-order traversal).  All about the definitions the driver runs. -/
+namespace DendroModel.C15
+open DendroModel DendroModel.C15.Aux DendroModel.C15.ExtAux DendroModel.C15.BuildAux DendroModel.C15.PtrAux
+  DendroModel.C15.ApplyAux DendroModel.C15.NbrAux
+
+/-- the child iterators yield exactly the children that pass, left to right; the edge variant their edges (the filter
+sees the edge); `incident_edges` the child edges and then the node's own edge -/
+theorem child_iter_spec (keep : T → Bool) (ekeep : E → Bool) (t : T) :
+    childIter keep t = t.cs.filter keep
+    ∧ childEdgeIter ekeep t = (t.cs.filter (fun n => ekeep ⟨n⟩)).map E.mk
+    ∧ (incidentEdges t).map (fun e => e.head.id) = t.cs.map T.id ++ [t.id] := by
+  refine ⟨childRun_eq keep t.cs, childEdgeRun_eq ekeep t.cs, ?_⟩
+  simp [incidentEdges, Function.comp_def]
+
+example : ((childIter (fun x => x.id != 2)
+    (.node 0 none none none [.node 1 none none none [.node 4 none none none []], .node 2 none none none [], .node 3 none none none []])).map T.id
+    = [1, 3]) ∧ (incidentEdges (.node 0 none none none [.node 1 none none none [], .node 2 none none none []])).map (fun e => e.head.id)
+    = [1, 2, 0] := by decide
+
+/-- `find_node` / `find_nodes`: all hits are the filtered pre-order; the single hit is its head — it passes the filter
+and no node before it in pre-order does; `None` iff no node passes -/
+theorem find_node_spec (keep : T → Bool) (t : T) :
+    findNodes keep t = (pre t).filter keep
+    ∧ findNode keep t = ((pre t).filter keep).head?
+    ∧ (∀ x, findNode keep t = some x → ∃ l1 l2, pre t = l1 ++ x :: l2 ∧ keep x = true ∧ ∀ y ∈ l1, keep y = false)
+    ∧ (findNode keep t = none ↔ ∀ y ∈ pre t, keep y = false) := by
+  have h1 : findNode keep t = ((pre t).filter keep).head? := by
+    unfold findNode
+    rw [preorder_spec]
+    cases (pre t).filter keep <;> rfl
+  refine ⟨preorder_spec keep t, h1, ?_, ?_⟩
+  · intro x hx
+    rw [h1] at hx
+    exact head?_filter_some keep (pre t) x hx
+  · rw [h1]
+    exact head?_filter_none keep (pre t)
+
+example : (findNode (fun x => x.id == 3 || x.id == 2)
+    (.node 0 none none none [.node 1 none none none [.node 2 none none none []], .node 3 none none none []])).map T.id = some 2
+  ∧ (findNode (fun x => x.id == 7)
+    (.node 0 none none none [.node 1 none none none [.node 2 none none none []], .node 3 none none none []])).map T.id = none := by
+  decide
+
+/-- the searches that test inside the loop body: by label and by taxon predicate the first hit in PRE-order,
+`find_node_for_taxon` the first hit in POST-order (so with one taxon on two nodes the two searches may return different
+nodes) -/
+theorem find_by_attribute_spec (lab : String) (q : Nat → Bool) (k : Nat) (t : T) :
+    findLabel lab t = ((pre t).filter (fun x => x.label == some lab)).head?
+    ∧ findTaxonPre q t = ((pre t).filter (fun x => match x.taxon with | some k => q k | none => false)).head?
+    ∧ findTaxonPost k t = ((post t).filter (fun x => x.taxon == some k)).head? := by
+  unfold findLabel findTaxonPre findTaxonPost
+  rw [firstWhere_eq, firstWhere_eq, firstWhere_eq, preorder_spec, postorder_spec, filter_true, filter_true]
+  exact ⟨rfl, rfl, rfl⟩
+
+/-- first-hit form for the attribute searches (any test, any traversal list) -/
+theorem first_where_first (p : T → Bool) (l : List T) :
+    (∀ x, firstWhere p l = some x → ∃ l1 l2, l = l1 ++ x :: l2 ∧ p x = true ∧ ∀ y ∈ l1, p y = false)
+    ∧ (firstWhere p l = none ↔ ∀ y ∈ l, p y = false) := by
+  rw [firstWhere_eq]
+  exact ⟨fun x hx => head?_filter_some p l x hx, head?_filter_none p l⟩
+
+/-- one taxon (index 5) on an inner node and on a leaf below it: pre-order search finds the inner node, post-order
+search the leaf -/
+example : (findTaxonPre (fun k => k == 5)
+    (.node 0 none none none [.node 1 (some 5) none none [.node 2 (some 5) none none []], .node 3 none none none []])).map T.id = some 1
+  ∧ (findTaxonPost 5
+    (.node 0 none none none [.node 1 (some 5) none none [.node 2 (some 5) none none []], .node 3 none none none []])).map T.id = some 2 := by
+  decide
+
+/-- below the parser: `sibling_nodes()` and `adjacent_nodes()` of the node `find?` returns, computed on the way down
+(`siblingNodes`/`adjacentNodes`: the parent is the next entry of the parent chain), are id for id what the code reads
+through `_parent_node` on the parent array (`siblingPtr`: the parent's children without the node itself, nothing for
+the seed; `adjacentPtr`: the children, then the parent unless the node is the seed) -/
+theorem neighbour_pointer_refinement_build (f : Nat) (par : Array Int) (tax : Array (Option Nat)) (lens : Array (Option Frac))
+    (labs : Array (Option String)) (r : Nat) (hr : par[r]! = -1) (hrlt : r < par.size) (hfuel : par.size ≤ f)
+    (start : Nat) (self : T) (hf : (buildTree f par tax lens labs r).find? start = some self) :
+    (siblingNodes (buildTree f par tax lens labs r) start false).map (List.map T.id) = some (siblingPtr par start)
+    ∧ (adjacentNodes (buildTree f par tax lens labs r) start false).map (List.map T.id) = some (adjacentPtr par start) := by
+  have hfaith := build_faithful par tax lens labs f r [] (acyc_root par r hr) (by simp) (by simpa using hrlt) (by simp)
+    (by simpa using hfuel)
+  exact nbr_ptr par _ (fun b hb => build_linked par tax lens labs f r b hb) (by rw [build_id]; exact hr) hfaith start self hf
+
+/-- the same for every protocol tree and every start the driver can pick (driver kinds `siblings`/`siblingsptr`,
+`adjacent`/`adjacentptr`) -/
+theorem neighbour_pointer_refinement (toks : List String) (tree : T) (rest : List String) (par : Array Int)
+    (start : Nat) (self : T)
+    (h : parseTree toks = some (tree, rest)) (hp : parsePar toks = some par) (hf : tree.find? start = some self) :
+    (siblingNodes tree start false).map (List.map T.id) = some (siblingPtr par start)
+    ∧ (adjacentNodes tree start false).map (List.map T.id) = some (adjacentPtr par start) := by
+  obtain ⟨f, par', tax, lens, labs, r, hp', rfl, hr, hrlt, hfuel⟩ := parseTree_build_fuel toks tree rest h
+  rw [hp] at hp'
+  simp only [Option.some.injEq] at hp'
+  subst hp'
+  exact neighbour_pointer_refinement_build f par tax lens labs r hr hrlt hfuel start self hf
+
+/-- kernel-checked instance: an array with an unreachable 2-cycle (entries 4, 5); node 1 has the sibling 3 and is
+adjacent to its child 2 and its parent 0 -/
+example : (siblingNodes (buildTree 6 #[-1, 0, 1, 0, 5, 4] #[none, none, none, none, none, none]
+    #[none, none, none, none, none, none] #[none, none, none, none, none, none] 0) 1 false).map (List.map T.id)
+      = some (siblingPtr #[-1, 0, 1, 0, 5, 4] 1) :=
+  (neighbour_pointer_refinement_build 6 #[-1, 0, 1, 0, 5, 4] #[none, none, none, none, none, none]
+    #[none, none, none, none, none, none] #[none, none, none, none, none, none] 0 (by decide) (by decide) (by decide) 1 _ rfl).1
+
+example : siblingPtr #[-1, 0, 1, 0, 5, 4] 1 = [3] ∧ adjacentPtr #[-1, 0, 1, 0, 5, 4] 1 = [2, 0]
+    ∧ siblingPtr #[-1, 0, 1, 0, 5, 4] 0 = [] ∧ adjacentPtr #[-1, 0, 1, 0, 5, 4] 0 = [1, 3] := by decide
+
+/-- what the tree-level readings are: the siblings are the parent's children other than the node (by id), in the
+parent's order; the neighbours are the node's children followed by the parent; a seed has no sibling and only its
+children as neighbours -/
+theorem neighbour_spec (tree : T) (start : Nat) (self : T) (hf : tree.find? start = some self) :
+    ∃ up : List T, UpChain (self :: up) ∧ (self :: up).getLast? = some tree
+      ∧ adjacentNodes tree start false = some (self.cs ++ up.take 1)
+      ∧ siblingNodes tree start false = some (match up with
+          | [] => []
+          | p :: _ => p.cs.filter (fun c => c.id != self.id)) := by
+  cases hp : ancPath start tree with
+  | none => rw [ancPath_none start tree hp] at hf; cases hf
+  | some p =>
+    obtain ⟨hne, hhead, hlast, hch⟩ := ancPath_some start tree p hp
+    cases p with
+    | nil => exact absurd rfl hne
+    | cons a up =>
+      simp only [List.head?_cons, hf, Option.some.injEq] at hhead
+      subst hhead
+      refine ⟨up, hch, hlast, by simp [adjacentNodes, hp], ?_⟩
+      cases up <;> simp [siblingNodes, hp]
+
+end DendroModel.C15
+
+/-! ## round ext-3, tie A: bridges to `Gen/C15Filters.lean`
+
+`harness/gen/c15filters.py` regenerates, from the current source on every run, the truthiness-composed filter lambdas of
+the internal-node / internal-edge / leaf wrappers, the traversal each wrapper delegates to, and the counting loop of
+`Tree.__len__`.  The theorems below say the hand-written model (`internalKeep`, the filter inside `leafIter`, `lenTree`)
+IS that regenerated code; they are proved by case analysis, so a semantics-preserving rewrite of the source still passes
+and a semantic change (the node's own truthiness in the lambda, a dropped `froot`, another delegate, a changed count)
+breaks them. -/
+namespace DendroModel.C15
+open DendroModel
+
+/-- the filter of `preorder_internal_node_iter` (and, identically, of the post-order and the two edge variants) as
+regenerated from the source = `internalKeep`, with a filter and without; each wrapper delegates to the traversal the
+driver composes `internalKeep` with (`preIter`/`postIter`/`preEdgeIter`/`postEdgeIter`) -/
+theorem internal_filter_bridge (excl hp : Bool) (sid : Nat) (keep : T → Bool) (x : T) :
+    internalKeep excl sid hp keep x
+      = C15Filters.nodePreInternal excl true (x.id != sid || hp) (!x.cs.isEmpty) (keep x)
+    ∧ internalKeep excl sid hp (fun _ => true) x
+      = C15Filters.nodePreInternal excl false (x.id != sid || hp) (!x.cs.isEmpty) (keep x)
+    ∧ (∀ a b c d e, C15Filters.nodePostInternal a b c d e = C15Filters.nodePreInternal a b c d e
+        ∧ C15Filters.edgePreInternal a b c d e = C15Filters.nodePreInternal a b c d e
+        ∧ C15Filters.edgePostInternal a b c d e = C15Filters.nodePreInternal a b c d e)
+    ∧ C15Filters.nodePreInternalDelegate = "preorder_iter" ∧ C15Filters.nodePostInternalDelegate = "postorder_iter"
+    ∧ C15Filters.edgePreInternalDelegate = "preorder_edge_iter"
+    ∧ C15Filters.edgePostInternalDelegate = "postorder_edge_iter" := by
+  refine ⟨?_, ?_, ?_, by decide, by decide, by decide, by decide⟩
+  · unfold internalKeep C15Filters.nodePreInternal
+    generalize (x.id != sid) = a
+    generalize x.cs.isEmpty = b
+    generalize keep x = c
+    cases excl <;> cases hp <;> cases a <;> cases b <;> cases c <;> rfl
+  · unfold internalKeep C15Filters.nodePreInternal
+    generalize (x.id != sid) = a
+    generalize x.cs.isEmpty = b
+    cases excl <;> cases hp <;> cases a <;> cases b <;> rfl
+  · intro a b c d e
+    unfold C15Filters.nodePostInternal C15Filters.edgePreInternal C15Filters.edgePostInternal C15Filters.nodePreInternal
+    cases a <;> cases b <;> cases c <;> cases d <;> cases e <;> exact ⟨rfl, rfl, rfl⟩
+
+/-- the hypotheses-free bridge evaluated on a concrete node: the excluded start without a parent is dropped, an inner
+node below it is kept -/
+example : C15Filters.nodePreInternal true true (0 != 0 || false) true true = false
+    ∧ C15Filters.nodePreInternal true true (1 != 0 || false) true true = true := by decide
+
+/-- the filter `leaf_iter` hands to `postorder_iter`, as regenerated = the one inside `leafIter`; `Node.leaf_nodes`
+filters by `isLeaf` alone; both delegate to `postorder_iter` (the model's `postIter`) -/
+theorem leaf_filter_bridge (keep : T → Bool) (x : T) (e p q : Bool) :
+    (x.isLeaf && keep x) = C15Filters.leafFilter e true p (!x.cs.isEmpty) (keep x)
+    ∧ x.isLeaf = C15Filters.leafFilter e false p (!x.cs.isEmpty) q
+    ∧ x.isLeaf = C15Filters.leafNodesFilter e false p (!x.cs.isEmpty) q
+    ∧ C15Filters.leafFilterDelegate = "postorder_iter" ∧ C15Filters.leafNodesFilterDelegate = "postorder_iter" := by
+  refine ⟨?_, ?_, ?_, by decide, by decide⟩
+  · unfold T.isLeaf C15Filters.leafFilter
+    generalize x.cs.isEmpty = b
+    generalize keep x = c
+    cases b <;> cases c <;> rfl
+  · unfold T.isLeaf C15Filters.leafFilter
+    generalize x.cs.isEmpty = b
+    cases b <;> rfl
+  · unfold T.isLeaf C15Filters.leafNodesFilter
+    generalize x.cs.isEmpty = b
+    cases b <;> rfl
+
+/-- `Tree.__len__` as regenerated (start value, increment per item of the leaf iterator) = `lenTree`, hence (with
+`len_spec`) the number of leaves -/
+theorem len_bridge (t : T) :
+    lenTree t = C15Filters.treeLen (leafIter (fun _ => true) t).length
+    ∧ C15Filters.treeLen (T.leaves t).length = (T.leaves t).length := by
+  unfold C15Filters.treeLen lenTree
+  constructor <;> omega
+
+example : C15Filters.treeLen 3 = 3 := by decide
 
 end DendroModel.C15
